@@ -88,6 +88,15 @@ def _all():
         for t in L:
             for d in (0.0005, 0.002, 0.05, -0.0005, -0.05):
                 yield {"fam": "margin", "L": L, "R": [[t[0], t[1] - d]]}
+    # a large unrelated constant on the left must not widen the tolerance of the tested row
+    for t in T[:30]:
+        for big in ([{"y": 1} if "y" not in t[0] else {"x": -1}, 1000], [{"x": -1, "y": -1}, 900]):
+            for d in (0.0005, 0.004, 0.05):
+                yield {"fam": "margin", "L": [t, big], "R": [[t[0], t[1] - d]]}
+    # sequences: look-alike pairs (equal to 4 significant digits) queried one after the other in one process
+    for a, b in ((10, 10.00390625), (2500, 2500.375), (1.0001, 1.0004)):
+        yield {"fam": "seq", "seq": [[[[{"x": 1}, a]], [[{"x": 1}, a]]], [[[{"x": 1}, b]], [[{"x": 1}, a]]]]}
+        yield {"fam": "seq", "seq": [[[[{"x": 2, "y": -3}, b]], [[{"x": 2, "y": -3}, a]]], [[[{"x": 2, "y": -3}, a]], [[{"x": 2, "y": -3}, a]]]]}
     cs = _contracts()
     for c1 in cs:
         for c2 in cs:
@@ -111,7 +120,7 @@ def _all():
             yield {"fam": "v3", "L": L, "R": R}
 
 
-QUICK = ("lists", "derived", "contracts", "interfaces", "margin")
+QUICK = ("lists", "derived", "contracts", "interfaces", "margin", "seq")
 
 
 def cases(tier, seed):
@@ -261,6 +270,15 @@ def _run_interfaces(case):
 
 def run_case(case):
     f = case["fam"]
+    if f == "seq":
+        out = []
+        for k, (Lj, Rj) in enumerate(case["seq"]):
+            r = _run_lists({"L": Lj, "R": Rj})[0]
+            viol = r[3]
+            if viol is not None:
+                viol = dict(viol, sub="seq#%d" % k, what="query %d of a sequence of look-alike pairs: %s" % (k, viol["what"]))
+            out.append((r[0], True, r[2], viol, r[4]))
+        return out
     if f == "contracts":
         return _run_contracts(case)
     if f == "interfaces":
